@@ -425,7 +425,8 @@ func numUses(t Tmpl) []numUse {
 
 // AllocRule: names that identify a live construct instance must be allocated in
 // the opener and re-read from a stack afterwards.
-func AllocRule(w *World, b *Backend, r *Result, rule string) {
+func AllocRule(w *World, b *Backend, r *Result, rule string, labelsOnly ...bool) {
+	onlyLabels := len(labelsOnly) > 0 && labelsOnly[0]
 	// instance counters: bumped by an opener/closer of a nestable construct
 	instance := map[string]bool{}
 	for _, m := range []string{"ForStart", "ForEnd", "IfStart", "IfEnd"} {
@@ -464,7 +465,21 @@ func AllocRule(w *World, b *Backend, r *Result, rule string) {
 		}
 		seen := map[string]bool{}
 		for _, em := range mf.Emissions {
+			if onlyLabels {
+				txt := strings.TrimSpace(em.T.String())
+				if !strings.HasPrefix(txt, ":") && !strings.Contains(strings.ToLower(txt), "goto ") {
+					continue
+				}
+			}
 			for _, u := range numUses(em.T) {
+				if strings.Contains(u.expr, "len(field:") {
+					key := fmt.Sprintf("alloc:%s:%s:%s<depth>", b.Role, name, u.name)
+					if !seen[key] {
+						seen[key] = true
+						r.Bad(rule, key, pos, fmt.Sprintf("%s numbers the instance name %s<n> by the nesting depth (%s): constructs at the same depth share the name — a loop in a called function overwrites the flag / label of the caller's loop — %s", name, u.name, u.expr, em.T))
+					}
+					continue
+				}
 				if !instance[u.counter] {
 					continue
 				}
